@@ -12,8 +12,9 @@ invariant between two host operations:
 * `Inv [] [] none` — the machine-level invariant of `MachineInvDefs` with no exemption;
 * no current thread, execution-stack depth 0;
 * the timer's dirty flag is sound (`TD`);
-* the clock discipline: `lastClock ≤ clock`, `scaledTime = lastClock = m_time` (the clock moves only
-  between two `Execute` calls, time scale 1).
+* the clock discipline: `lastClock ≤ clock`, `scaledTime = lastClock` (the clock moves only between two
+  `Execute` calls, time scale 1); `m_time = lastClock` as well as long as no snapshot is loaded
+  (`reachable_mtime`, unconditional).
 
 `reachable_hinv`: every state reachable from the initial one by host operations has run out of fuel
 or satisfies `HInv`.  Programs must be `ProgOK` (object ids < 100; `local.p0 waittill n` on a thread object
@@ -87,7 +88,6 @@ structure HInv (s : State) : Prop where
   td : TD s.timer
   ck1 : s.lastClock ≤ s.clock
   ck2 : s.scaled = s.lastClock
-  ck3 : s.timer.mtime = s.lastClock
 
 theorem Ok.bind' {a b : State} {P R : Prop} (h : Ok a P) (hp : a.outOfFuel = true → b.outOfFuel = true)
     (k : P → Ok b R) : Ok b R := h.elim (fun o => Or.inl (hp o)) k
@@ -108,10 +108,9 @@ theorem HInv.step {s s' : State} (h : HInv s) (hr : HR s s') (hi : Ok s' (Inv []
   intro ho
   have hc3 := hr.ht.c3
   simp only [Prod.mk.injEq] at hc3
-  refine ⟨hi.get ho, hr.cur h.cur ho, by rw [hr.depth]; exact h.depth, hr.ht.td h.td, ?_, ?_, ?_⟩
+  refine ⟨hi.get ho, hr.cur h.cur ho, by rw [hr.depth]; exact h.depth, hr.ht.td h.td, ?_, ?_⟩
   · rw [hc3.1, hc3.2.2]; exact h.ck1
   · rw [hc3.2.1, hc3.2.2]; exact h.ck2
-  · rw [hr.ht.mtime, hc3.2.2]; exact h.ck3
 
 /-- `P` through a fold of steps that each keep it modulo fuel -/
 theorem ok_foldl {α : Type} (f : State → α → State) (P : State → Prop)
@@ -188,7 +187,7 @@ theorem inv_init : Inv [] [] none ({} : State) := by
   · intro t th h; simp [thFind] at h
 
 theorem hinv_init : HInv ({} : State) :=
-  ⟨inv_init, rfl, rfl, fun _ e he => by simp at he, Nat.le_refl _, rfl, rfl⟩
+  ⟨inv_init, rfl, rfl, fun _ e he => by simp at he, Nat.le_refl _, rfl⟩
 
 /-! ### destroying script instances (`~ScriptClass`, `Reset`, recompile) -/
 
@@ -451,7 +450,7 @@ theorem hostExecute_eq (s : State) :
     hostExecute s = executeRunning defaultFuel (processEvents defaultFuel (frameSetTime s)) := rfl
 
 theorem frameSetTime_hinv {s : State} (h : HInv s) : HInv (frameSetTime s) := by
-  refine ⟨?_, h.cur, h.depth, TD.setTime _ _, Nat.le_refl _, ?_, rfl⟩
+  refine ⟨?_, h.cur, h.depth, TD.setTime _ _, Nat.le_refl _, ?_⟩
   · exact (h.inv.setTimerSame (s.timer.setTime s.clock) rfl).congr rfl rfl rfl rfl rfl rfl rfl rfl rfl
   · show s.scaled + (s.clock - s.lastClock) = s.clock
     have := h.ck1; have := h.ck2; omega
@@ -475,15 +474,15 @@ theorem HostOp.apply_hinv {s : State} (h : HInv s) (op : HostOp) (hok : op.ok) :
   | callv l => exact h.step (hostCallV_hr s l) (hostCallV_inv h.inv l)
   | advance k =>
     exact Ok.pure ⟨h.inv.congr rfl rfl rfl rfl rfl rfl rfl rfl rfl, h.cur, h.depth, h.td,
-      Nat.le_trans h.ck1 (Nat.le_add_right _ _), h.ck2, h.ck3⟩
+      Nat.le_trans h.ck1 (Nat.le_add_right _ _), h.ck2⟩
   | resetDirector => exact h.step (hostReset_hr s) (hostReset_inv h.inv)
   | execute => exact hostExecute_hinv h
   | step k =>
     exact hostExecute_hinv (s := { s with clock := s.clock + k })
       ⟨h.inv.congr rfl rfl rfl rfl rfl rfl rfl rfl rfl, h.cur, h.depth, h.td,
-        Nat.le_trans h.ck1 (Nat.le_add_right _ _), h.ck2, h.ck3⟩
+        Nat.le_trans h.ck1 (Nat.le_add_right _ _), h.ck2⟩
   | takeOut =>
-    exact Ok.pure ⟨h.inv.congr rfl rfl rfl rfl rfl rfl rfl rfl rfl, h.cur, h.depth, h.td, h.ck1, h.ck2, h.ck3⟩
+    exact Ok.pure ⟨h.inv.congr rfl rfl rfl rfl rfl rfl rfl rfl rfl, h.cur, h.depth, h.td, h.ck1, h.ck2⟩
 
 /-- running out of fuel is sticky at the host level too (except through `reset`, which starts afresh) -/
 theorem HostOp.apply_oof {s : State} (op : HostOp) (hne : op ≠ .reset) (ho : s.outOfFuel = true) :
@@ -516,5 +515,30 @@ theorem reachable_hinv {s : State} (h : Reachable s) : Ok s (HInv s) := by
 /-- the machine-level invariant, with no exemption, in every reachable state -/
 theorem reachable_inv_partial {s : State} (h : Reachable s) : s.outOfFuel = true ∨ Inv [] [] none s :=
   (reachable_hinv h).map (fun hi => hi.inv)
+
+/-- the timer's `m_time` is the clock of the last frame — without `save`/`load`, with or without fuel -/
+theorem reachable_mtime {s : State} (h : Reachable s) : s.timer.mtime = s.lastClock := by
+  induction h with
+  | init => rfl
+  | step op _ _ ih =>
+    have key : ∀ {a b : State}, HR a b → a.timer.mtime = a.lastClock → b.timer.mtime = b.lastClock := by
+      intro a b hr e
+      have hc := hr.ht.c3
+      simp only [Prod.mk.injEq] at hc
+      rw [hr.ht.mtime, hc.2.2]; exact e
+    have hex : ∀ a : State, (hostExecute a).timer.mtime = (hostExecute a).lastClock := by
+      intro a
+      rw [hostExecute_eq]
+      exact key (((processEvents_hr defaultFuel (frameSetTime a))).trans ((hrAll defaultFuel).er _)) rfl
+    cases op with
+    | reset => rfl
+    | script p ps => exact key (hostScript_hr _ p ps) ih
+    | call l args => exact key (hostCall_hr _ l args) ih
+    | callv l => exact key (hostCallV_hr _ l) ih
+    | advance k => exact ih
+    | resetDirector => exact key (hostReset_hr _) ih
+    | execute => exact hex _
+    | step k => exact hex _
+    | takeOut => exact ih
 
 end Morfuse.Sched
